@@ -53,7 +53,8 @@ def main():
     t0 = time.time()
     mod = importlib.import_module(prop.lower())
     st = build.prepare(prop, drivers=getattr(mod, "DRIVERS", ()), targets=getattr(mod, "TARGETS", None),
-                       model_targets=getattr(mod, "MODEL_TARGETS", None))
+                       model_targets=getattr(mod, "MODEL_TARGETS", None),
+                       translators=getattr(mod, "TRANSLATORS", ()))
     ctx = Ctx(prop, tier, seed, st)
     res = ctx.res
     broken = []   # proof-side breakage (theorem / translator / extraction)
